@@ -82,22 +82,20 @@ def exemptReadonly : List String := [
   "Property.cssText", "Property.name", "Property.propertyValue", "Property.value", "Property.priority",
   -- edits the style of an existing margin rule, which has its own read-only flag; a CSSPageRule *created*
   -- read-only has no margin rules (its constructor takes none), so this branch is not reachable for such objects
-  "CSSPageRule.__setitem__",
-  -- known finding C11-readonly-unguarded-2 (known/C11.json, proposed-fixes/C11-readonly-unguarded-2.diff): public
-  -- mutators WITHOUT the read-only guard; `finding_readonly_unguarded_2` proves that their scripts are not safe
-  "SelectorList.__delitem__", "CSSStyleSheet.cssRules", "CSSMediaRule.cssRules", "CSSPageRule.cssRules",
-  "CSSRule.atkeyword"]
+  "CSSPageRule.__setitem__"]
 
-/-- **finding C11-readonly-unguarded-2 at model level**: each of the five scripts, started on a read-only object,
-has a completed way of ending with a changed field (the analysis is exact here: the scripts are straight-line
-assignments without any guard) -/
-theorem finding_readonly_unguarded_2 :
+/-- **former finding C11-readonly-unguarded-2 (fixed by 14b7e63) at model level**: the five mutators that had no
+read-only guard (`del selectorList[i]`, the `cssRules` setters of sheet / @media / @page, `rule.atkeyword =`) are
+extracted, begin with the guard, and are read-only safe — they are no longer exempted from `all_readonly_safe` -/
+theorem fixed_readonly_unguarded_2 :
     (["SelectorList.__delitem__", "CSSStyleSheet.cssRules", "CSSMediaRule.cssRules", "CSSPageRule.cssRules",
       "CSSRule.atkeyword"].all fun n =>
-        Gen.C11.scripts.any fun m => m.name == n && !ReadonlySafe m.fields m.body && !guardedFirst m.body) = true := by
-  decide +kernel
+        Gen.C11.scripts.any fun m => m.name == n && ReadonlySafe m.fields m.body && guardedFirst m.body) = true ∧
+    (["SelectorList.__delitem__", "CSSStyleSheet.cssRules", "CSSMediaRule.cssRules", "CSSPageRule.cssRules",
+      "CSSRule.atkeyword"].all fun n => !exemptReadonly.contains n) = true := by
+  constructor <;> decide +kernel
 
-/-- … and concretely: `del selectorList[i]` run on a read-only object ends normally with the field changed -/
+/-- what the guard is for: an unguarded mutation run on a read-only object ends normally with the field changed -/
 example : (run 10 (.mutate 0) (St.init true) []).exit = .norm ∧
     (run 10 (.mutate 0) (St.init true) []).st.cur 0 ≠ (St.init true).cur 0 := by decide
 
